@@ -107,6 +107,22 @@ HAND = [
   z = r
   return z
 '''),
+    ('ty:parameter_shadows_enclosing_variable', '''def f(x: int, y: float, b: bool, k: int):
+  label = x
+  def relabel(x):
+    u = x
+    v = u
+    return v
+  def keep(label, k: int):
+    w = label
+    return w
+  r = relabel('name')
+  s = keep(y, k)
+  if b:
+    s = keep(b, 1)
+  z = relabel(label)
+  return (r, s, z)
+'''),
     ('ty:closure_after_break', '''def f(x: int, y: float, b: bool, k: int):
   c = 1
   def g(p: int):
